@@ -910,6 +910,6 @@ func main() {
 		Run:         run,
 		MinEvals:    5000,
 		MinDistinct: 150,
-		Require:     []string{"accepted_blocks", "effect_bearing_changes_detected", "exempt_changes_ignored", "derived_ids_in_collision_table", "era_separation_cases", "framing_pairs", "block_mutations_changing_the_id", "block_mutations_rejected_with_same_id"},
+		Require:     []string{"attestation_only_transaction_repeated", "empty_contract_proof_pairs", "polyglot_constructions", "era_first_block_cases", "accepted_blocks", "effect_bearing_changes_detected", "exempt_changes_ignored", "derived_ids_in_collision_table", "era_separation_cases", "framing_pairs", "block_mutations_changing_the_id", "block_mutations_rejected_with_same_id"},
 	})
 }
